@@ -18,7 +18,7 @@ EXPLANATION = (
     "Stability: every construction of ActorRef / ActorWeak takes `id` from the parameter or self.id; identity() returns self.id; the "
     "erased handles forward (C16 rules re-evaluated). Truthfulness: the complete decision tables of ActorRef::is_alive (not closed(mailbox) "
     "and not closed(control)) and ActorWeak::is_alive (strong_count(mailbox) > 0 and strong_count(control) > 0), upgrade's table (C07 "
-    "rule); 'false once the JoinHandle resolved, then every send fails' follows from both receivers being dropped on every exit (C03 rule) "
+    "rule) and, for 'exactly while some strong reference exists', the runtime keeps no strong handle of its own while idle (C07 rules O7.1/O7.2); 'false once the JoinHandle resolved, then every send fails' follows from both receivers being dropped on every exit (C03 rule) "
     "plus T1/T2.")
 
 AR = "actor_ref::ActorRef"
@@ -34,6 +34,10 @@ def run(run):
         lc = lifecycle.get(f)
         if lc.body is not None:
             c03.receivers_die_with_actor(run, f, lc)
+            # "upgrade returns a reference exactly while some strong reference (or queued message) still exists": the
+            # runtime itself must not be such a reference while it waits for work, and spawn must keep none (C07 rules O7.1/O7.2)
+            c07.no_strong_across_select(run, lc)
+            c07.spawn_keeps_nothing(run, f, lc)
         # erased handles report the same identity: the identity/is_alive forwarders
         for d, fn in sorted(f.fns.items()):
             if fn.get("has_body") and fn.get("impl_trait") in c16.SIX and fn["name"] in ("identity", "is_alive") and fn.get("impl_self") is not None:
